@@ -199,20 +199,9 @@ Section OrN.
     forallb3 (fun xa ei z => sp_verify P (fst xa) (snd xa) ei z) (combine xs az) es zs.
 
   (* prover: branch b is real (randomness r), branch i<>b is simulated with the share and
-     simulator randomness given in sims (sims has one entry per branch; entry b is unused) *)
-  Fixpoint or_commit_aux (i b : nat) (xs : list (sp_X P)) (w : sp_W P) (r : sp_R P)
-           (sims : list (bytes * sp_R P)) : list (sp_A P * option (sp_Z P)) :=
-    match xs, sims with
-    | x :: xs', (ei, ri) :: sims' =>
-        (if Nat.eqb i b then (fst (sp_commit P x w r), None)
-         else let '(a, z) := sp_sim P x ei ri in (a, Some z))
-        :: or_commit_aux (S i) b xs' w r sims'
-    | _, _ => []
-    end.
-
-  Definition or_commit b xs w r sims := or_commit_aux 0 b xs w r sims.
-
-  (* e_b = e xor (xor of all simulated shares) *)
+     simulator randomness given in sims (one entry per branch; entry b is unused).
+     ComputeProverResponse: e_b = e xor (xor of all simulated shares), z_b = response of
+     the real branch under e_b; simulated branches keep their (e_i, z_i). *)
   Fixpoint others {A} (i b : nat) (l : list A) : list A :=
     match l with
     | [] => []
@@ -222,15 +211,25 @@ Section OrN.
   Definition or_real_share (b : nat) (e : bytes) (sims : list (bytes * sp_R P)) : bytes :=
     fold_left xor_bytes (others 0 b (map fst sims)) e.
 
-  Fixpoint set_nth_b {A} (i : nat) (x : A) (l : list A) : list A :=
-    match l, i with
-    | [], _ => []
-    | _ :: r, O => x :: r
-    | y :: r, S i' => y :: set_nth_b i' x r
+  Fixpoint or_branches (i b : nat) (eb : bytes) (xs : list (sp_X P)) (w : sp_W P) (r : sp_R P)
+           (sims : list (bytes * sp_R P)) : list (sp_A P * bytes * sp_Z P) :=
+    match xs, sims with
+    | x :: xs', (ei, ri) :: sims' =>
+        (if Nat.eqb i b
+         then let '(a, s) := sp_commit P x w r in (a, eb, sp_respond P x w a s eb)
+         else let '(a, z) := sp_sim P x ei ri in (a, ei, z))
+        :: or_branches (S i) b eb xs' w r sims'
+    | _, _ => []
     end.
 
-  Definition or_shares (b : nat) (e : bytes) (sims : list (bytes * sp_R P)) : list bytes :=
-    set_nth_b b (or_real_share b e sims) (map fst sims).
+  (* the whole prover: per branch (a_i, e_i, z_i) *)
+  Definition or_prove (b : nat) (xs : list (sp_X P)) (w : sp_W P) (r : sp_R P)
+             (sims : list (bytes * sp_R P)) (e : bytes) : list (sp_A P * bytes * sp_Z P) :=
+    or_branches 0 b (or_real_share b e sims) xs w r sims.
+
+  (* Verify on the prover's output format *)
+  Definition or_verify_branches (xs : list (sp_X P)) (e : bytes) (br : list (sp_A P * bytes * sp_Z P)) : bool :=
+    or_verify xs (map (fun t => fst (fst t)) br) e (map (fun t => snd (fst t)) br) (map snd br).
 End OrN.
 
 (* ---------- executable instance: Z_q in the exponent, linear forms ---------- *)
